@@ -340,7 +340,7 @@ theorem core_connectionFailed (s : Sess) : core s.connectionFailed = (core s).co
   have h2 : (core s).proto = s.proto := rfl
   rw [h1, h2]
   cases s.st <;>
-    simp only [core_connectionClosed, core_setSt, core_closeConn, core_setRetry, core_errorClose, Option.isSome_none,
+    simp only [core_connectionClosed, core_setSt, core_closeConn, core_setRetry, core_setHold, core_errorClose, Option.isSome_none,
       Option.isSome_some]
 
 theorem core_manualStart (s : Sess) : core s.manualStart = (core s).manualStart := by
@@ -448,7 +448,7 @@ theorem core_fsmNotificationReceived (s : Sess) (e sub : Nat) :
   rw [h1]
   by_cases h : e = C.errOpen ∧ sub = 1
   · simp only [h, and_self, ↓reduceIte, decide_true]
-    cases s.st <;> simp only [core_errorClose, core_setSt, core_closeConn, core_setRetry, Option.isSome_none]
+    cases s.st <;> simp only [core_errorClose, core_setSt, core_closeConn, core_setRetry, core_setHold, core_setKeepalive, Option.isSome_none]
   · simp only [h, ↓reduceIte, decide_false, Bool.false_eq_true]
     split <;> simp only [core_errorClose]
 
